@@ -581,7 +581,7 @@ func init() {
 	// ---- rules added after the second round of seeded changes ----
 	mut("C08", "median timestamp takes the upper middle for an even count", true, "definition|median-timestamp",
 		Edit{"consensus/state.go", "\tif len(ts)%2 != 0 {\n\t\treturn ts[len(ts)/2]\n\t}\n\tl, r := ts[len(ts)/2-1], ts[len(ts)/2]\n\treturn l.Add(r.Sub(l) / 2)", "\treturn ts[len(ts)/2]"})
-	mut("C09", "multiproof decoder carves proofs out of a shared arena", true, "decoded-owns-memory|(*types.V2TransactionsMultiproof).DecodeFrom:MerkleProof",
+	mut("C09", "multiproof decoder carves proofs out of a shared arena", true, "decoded-owns-memory|(types.V2TransactionsMultiproof).DecodeFrom:MerkleProof",
 		Edit{"types/multiproof.go", "\tnumLeaves := d.ReadUint64()\n\tforEachElementLeaf(*txns, func(l elementLeaf) {", "\tnumLeaves := d.ReadUint64()\n\tvar arena []Hash256\n\tforEachElementLeaf(*txns, func(l elementLeaf) {"},
 		Edit{"types/multiproof.go", "\t\tl.MerkleProof = make([]Hash256, bits.Len64(l.LeafIndex^numLeaves)-1)", "\t\tn := bits.Len64(l.LeafIndex^numLeaves) - 1\n\t\tif n > len(arena) {\n\t\t\tarena = make([]Hash256, 256)\n\t\t}\n\t\tl.MerkleProof, arena = arena[:n], arena[n:]"})
 	mut("C09", "(benign) multiproof decoder carves capacity-limited proofs out of an arena", false, "",
@@ -589,14 +589,14 @@ func init() {
 		Edit{"types/multiproof.go", "\t\tl.MerkleProof = make([]Hash256, bits.Len64(l.LeafIndex^numLeaves)-1)", "\t\tn := bits.Len64(l.LeafIndex^numLeaves) - 1\n\t\tif n > len(arena) {\n\t\t\tarena = make([]Hash256, 256)\n\t\t}\n\t\tl.MerkleProof, arena = arena[:n:n], arena[n:]"})
 	mut("C10", "StorageProofLeafIndex rounds up with an addition that can wrap to a zero divisor", true, "sink-discharged|(consensus.State).StorageProofLeafIndex:div",
 		Edit{"consensus/state.go", "\tnumLeaves := filesize / leafSize\n\tif filesize%leafSize != 0 {\n\t\tnumLeaves++\n\t}\n\tif numLeaves == 0 {", "\tnumLeaves := (filesize + leafSize - 1) / leafSize\n\tif filesize == 0 {"})
-	mut("C11", "ReadTime rejects timestamps above MaxInt64 although WriteTime writes them", true, "primitive-symmetry|(*types.Decoder).ReadTime",
+	mut("C11", "ReadTime rejects timestamps above MaxInt64 although WriteTime writes them", true, "primitive-symmetry|(types.Decoder).ReadTime",
 		Edit{"types/encoding.go", "\treturn time.Unix(int64(d.ReadUint64()), 0)", "\tsec := d.ReadUint64()\n\tif sec > 1<<63-1 {\n\t\td.SetErr(errors.New(\"timestamp overflows int64\"))\n\t\treturn time.Time{}\n\t}\n\treturn time.Unix(int64(sec), 0)"})
 }
 
 func init() {
 	mut("C13", "SufficientlyHeavierThan accepts equal weight", true, "heavier-strict|SufficientlyHeavierThan",
 		Edit{"consensus/state.go", "return s.TotalWork.Cmp(t.TotalWork.add(t.Difficulty.div64(5))) > 0", "return s.TotalWork.Cmp(t.TotalWork.add(t.Difficulty.div64(5))) >= 0"})
-	mut("C09", "DeepCopy hoists the per-resolution temporaries out of the loop", true, "copy-is-deep|(*types.V2Transaction).DeepCopy:per-iteration",
+	mut("C09", "DeepCopy hoists the per-resolution temporaries out of the loop", true, "copy-is-deep|(types.V2Transaction).DeepCopy:per-iteration",
 		Edit{"types/types.go", "\t\t\tsp := *res\n", "\t\t\tsp = *res\n"},
 		Edit{"types/types.go", "\tc.FileContractResolutions = slices.Clone(c.FileContractResolutions)\n", "\tc.FileContractResolutions = slices.Clone(c.FileContractResolutions)\n\tvar sp V2StorageProof\n"})
 }
